@@ -113,9 +113,9 @@ const c09Lib1 = `rule r1 { when F.I < 2 && F.Heavy(F.I) >= 1 then F.I = F.I + 1;
 const c09Lib2 = c09Lib1 + "\n" + `rule r2 salience 5 { when F.K == 1 && F.I2 == 0 then F.I2 = 1; Retract("r1"); }`
 
 type c09Obs struct {
-	Events []string
-	Err    string
-	Final  string
+	Events  []string
+	Err     string
+	Final   string
 	InstErr string
 }
 
@@ -325,19 +325,40 @@ func C09Race(args []string) {
 	}
 }
 
-// ---------- the check ----------
+type c09CorpusLine struct {
+	Kind                 string                 `json:"kind"` // violation | sample | counts
+	Sig                  string                 `json:"sig,omitempty"`
+	What                 string                 `json:"what,omitempty"`
+	ID                   string                 `json:"id,omitempty"`
+	Data                 map[string]interface{} `json:"data,omitempty"`
+	Progs, Graphs, Behav int64
+}
 
-func C09(rep *ev.Reporter, tier string) {
-	bud := NewBudget(55 * time.Second)
+// C09Corpus is the child process for obligations (1) and (2): it creates and runs instances from
+// many goroutines, so a fatal runtime error (concurrent map access) kills only this child.
+func C09Corpus(args []string) {
+	tier := "quick"
+	if len(args) > 0 {
+		tier = args[0]
+	}
+	filter := ""
+	if len(args) > 1 {
+		filter = args[1]
+	}
+	var omu sync.Mutex
+	emit := func(l c09CorpusLine) {
+		b, _ := json.Marshal(l)
+		omu.Lock()
+		fmt.Println(string(b))
+		omu.Unlock()
+	}
+	report := func(sig, what, id string) { emit(c09CorpusLine{Kind: "violation", Sig: sig, What: what, ID: id}) }
+	bud := NewBudget(50 * time.Second)
 	if tier == "thorough" {
-		bud = NewBudget(12 * time.Minute)
+		bud = NewBudget(8 * time.Minute)
 	}
+	rep := &c09FakeRep{filter: filter, sample: func(m map[string]interface{}) { emit(c09CorpusLine{Kind: "sample", Data: m}) }}
 	var mu sync.Mutex
-	report := func(sig, what, id string) {
-		mu.Lock()
-		rep.Violation(sig, what, map[string]interface{}{"case": id})
-		mu.Unlock()
-	}
 	// ---- (1) faithful copy + (2) isolation on a corpus of programs ----
 	var progs []*hx.Program
 	n := 0
@@ -361,7 +382,7 @@ func C09(rep *ev.Reporter, tier string) {
 	ParallelEach(len(progs), func(pi int) {
 		p := progs[pi]
 		id := fmt.Sprintf("c09/prog/%d", pi)
-		if rep.ReplayFilter != "" && rep.ReplayFilter != id {
+		if rep.filter != "" && rep.filter != id {
 			return
 		}
 		if bud.Over() {
@@ -445,9 +466,66 @@ func C09(rep *ev.Reporter, tier string) {
 			report("C09:operation-on-instance-changes-other-instance", fmt.Sprintf("instance B after operations on A: %v, expected %v\n  grl: %s", trB.Events, bpTrace.Events, p.Text), id)
 		}
 		if pi%60 == 0 {
-			rep.Sample(map[string]interface{}{"case": id, "grl": p.Text, "graph_sizes": []int{len(graphs[0]), len(graphs[1])}})
+			rep.sample(map[string]interface{}{"case": id, "grl": p.Text, "graph_sizes": []int{len(graphs[0]), len(graphs[1])}})
 		}
 	})
+
+	emit(c09CorpusLine{Kind: "counts", Progs: nProgs, Graphs: nGraphs, Behav: nBehav})
+}
+
+type c09FakeRep struct {
+	filter string
+	sample func(map[string]interface{})
+}
+
+// ---------- the check ----------
+
+func C09(rep *ev.Reporter, tier string) {
+	bud := NewBudget(55 * time.Second)
+	if tier == "thorough" {
+		bud = NewBudget(12 * time.Minute)
+	}
+	var mu sync.Mutex
+	report := func(sig, what, id string) {
+		mu.Lock()
+		rep.Violation(sig, what, map[string]interface{}{"case": id})
+		mu.Unlock()
+	}
+	// ---- (1) faithful copy + (2) isolation on a corpus of programs: in a child process ----
+	var nProgs, nGraphs, nBehav int64
+	selfExe, _ := os.Executable()
+	if rep.ReplayFilter == "" || strings.HasPrefix(rep.ReplayFilter, "c09/prog/") {
+		cmd := exec.Command(selfExe, "C09-corpus", "x", tier, rep.ReplayFilter)
+		var stderr strings.Builder
+		cmd.Stderr = &stderr
+		op, err := cmd.Output()
+		scn := bufio.NewScanner(strings.NewReader(string(op)))
+		scn.Buffer(make([]byte, 1<<20), 1<<26)
+		for scn.Scan() {
+			var l c09CorpusLine
+			if json.Unmarshal([]byte(scn.Text()), &l) != nil {
+				continue
+			}
+			switch l.Kind {
+			case "violation":
+				report(l.Sig, l.What, l.ID)
+			case "sample":
+				rep.Sample(l.Data)
+			case "counts":
+				nProgs, nGraphs, nBehav = l.Progs, l.Graphs, l.Behav
+			}
+		}
+		if err != nil {
+			fatal := ""
+			for _, ln := range strings.Split(stderr.String(), "\n") {
+				if strings.HasPrefix(ln, "fatal error") || strings.HasPrefix(ln, "panic:") {
+					fatal = ln
+					break
+				}
+			}
+			report("C09:runtime-abort-under-concurrent-instance-use:"+strings.ReplaceAll(strings.TrimPrefix(fatal, "fatal error: "), " ", "-"), fmt.Sprintf("creating and executing instances of independent libraries from several goroutines aborted the process: %v %s\n%s", err, fatal, trunc(stderr.String(), 1200)), "c09/prog/abort")
+		}
+	}
 	// ---- (3) schedules: worker processes, GOMAXPROCS=1 each ----
 	type scen struct {
 		name           string
@@ -464,7 +542,7 @@ func C09(rep *ev.Reporter, tier string) {
 			scen{"2 threads, 2-rule library, coarse yield points, <=3 preemptions", "lib2", 2, 3, "coarse", 0},
 			scen{"3 threads, 2-rule library, coarse yield points, <=2 preemptions", "lib2", 3, 2, "coarse", 0})
 	}
-	self, _ := os.Executable()
+	self := selfExe
 	totalExec, totalOutcomes := 0, 0
 	var scenSummaries []map[string]interface{}
 	if rep.ReplayFilter == "" || strings.HasPrefix(rep.ReplayFilter, "c09/sched/") {
